@@ -1,5 +1,5 @@
 SPECIFICATION Spec
 CONSTANT MaxDepth = 2
-CONSTANT MaxSteps = 6
+CONSTANT MaxSteps = 7
 PROPERTY DestroyRestores
 CHECK_DEADLOCK FALSE
